@@ -215,6 +215,66 @@ pub fn sizes(st: &mut Stats) {
     }
     st.shapes.insert(fnv(b"sizes-scenario"));
     big_ids(st);
+    refreshed_across_tracing_levels(st);
+}
+
+/// A user key issued at tracing level 1 and refreshed by a master key that has more tracers (a
+/// master key read from bytes with (t, t·G) pairs appended): the refreshed key is an object the API
+/// produced, so it must survive serialization like any other (length, equality, usability).
+fn refreshed_across_tracing_levels(st: &mut Stats) {
+    let cc = Covercrypt::default();
+    let Out::Ok((mut msk, _)) = call(|| cc.setup()) else { return };
+    let _ = msk.access_structure.add_anarchy("D".into());
+    let _ = msk.access_structure.add_attribute(QualifiedAttribute::new("D", "A"), hint(false), None);
+    let _ = msk.access_structure.add_attribute(QualifiedAttribute::new("D", "B"), hint(true), None);
+    if !call(|| cc.update_msk(&mut msk)).is_ok() {
+        return;
+    }
+    let ap = AccessPolicy::parse("D::A || D::B").unwrap();
+    let Out::Ok(usk0) = call(|| cc.generate_user_secret_key(&mut msk, &ap)) else { return };
+    for extra in [1usize, 2] {
+        let Some(mut msk2) = ser(&msk).ok().and_then(|b| WMsk::parse(&b).ok()).and_then(|mut w| {
+            for k in 0..extra {
+                let mut t: Vec<u8> = (0..32u8).map(|i| i.wrapping_mul(7).wrapping_add(k as u8 + 3)).collect();
+                t[0] = 0;
+                t[31] = 0;
+                let p = crate::arith::base_mul(&t)?;
+                w.tracers.push((t, p));
+            }
+            de::<MasterSecretKey>(&w.write()).ok()
+        }) else {
+            st.inconclusive.push("cannot build a master key with more tracers".into());
+            return;
+        };
+        let mut usk = usk0.clone();
+        for keep in [true, false] {
+            if !call(|| cc.refresh_usk(&mut msk2, &mut usk, keep)).is_ok() {
+                // whether such a refresh is granted is not this property's business
+                st.bump("cross_level_refresh_refused");
+                continue;
+            }
+            st.bump("cross_level_refresh_ok");
+            match ser(&usk) {
+                Out::Ok(b) => {
+                    st.bump("roundtrips_ok");
+                    if b.len() != usk.length() {
+                        fail(st, "cross-level:length-mismatch:usk", format!("length()={} bytes={}", usk.length(), b.len()));
+                    }
+                    match de::<UserSecretKey>(&b) {
+                        Out::Ok(y) if y == usk => {
+                            if ser(&y).ok().as_ref() != Some(&b) {
+                                fail(st, "cross-level:roundtrip-copy-serializes-differently:usk", String::new());
+                            }
+                        }
+                        Out::Ok(_) => fail(st, "cross-level:roundtrip-not-equal:usk", format!("key refreshed by a master key with {} tracers", 2 + extra)),
+                        o => fail(st, "cross-level:roundtrip-rejected:usk", format!("key refreshed by a master key with {} tracers: {}", 2 + extra, o.describe())),
+                    }
+                }
+                o => fail(st, "cross-level:serialize-failed:usk", o.describe()),
+            }
+        }
+        st.shapes.insert(fnv(format!("cross-level-{extra}").as_bytes()));
+    }
 }
 
 /// Attribute ids that need two and three LEB128 bytes inside right names (>= 128, >= 16384): the id
